@@ -322,7 +322,7 @@ doneHeaders:
 		switch st := list[i].(type) {
 		case *ast.ExprStmt:
 			if call, ok := st.X.(*ast.CallExpr); ok && len(call.Args) == 3 {
-				if fn := typeutil.Callee(info, call); fn != nil && fn.Name() == "writeJSON" && fn.Pkg() == p.Pkg.Types && c.isObj(call.Args[0], w) {
+				if fn := typeutil.Callee(info, call); fn != nil && fn.Pkg() == p.Pkg.Types && fn.Parent() == p.Pkg.Types.Scope() && writeJSONShapeOf(p, declOfObj(p, fn)) == "" && c.isObj(call.Args[0], w) {
 					if path, _ := c.fieldSel(call.Args[1], c.recv); len(path) == 1 && path[0] == "Body" {
 						rw.Body = "json"
 						i++
@@ -360,9 +360,20 @@ doneHeaders:
 
 // writeJSONShape: func writeJSON(w io.Writer, v interface{}, name string) { err := json.NewEncoder(w).Encode(v); if err != nil { LogError(..) } }
 func writeJSONShape(p *Program) string {
-	fd := p.funcDecl("", "writeJSON")
+	// the JSON body helper is found by shape: a package-level func(w io.Writer, v any, name string)
+	for _, f := range p.Pkg.Syntax {
+		for _, d := range f.Decls {
+			if fd, ok := d.(*ast.FuncDecl); ok && fd.Recv == nil && fd.Body != nil && writeJSONShapeOf(p, fd) == "" {
+				return ""
+			}
+		}
+	}
+	return "no package-level helper of the shape json.NewEncoder(w).Encode(v) found"
+}
+
+func writeJSONShapeOf(p *Program, fd *ast.FuncDecl) string {
 	if fd == nil {
-		return "writeJSON not found"
+		return "JSON body helper not found"
 	}
 	info := p.Pkg.TypesInfo
 	ps := paramObjs(info, fd)
